@@ -56,7 +56,7 @@ bool SPxSolverBase<R>::writeBasisFile
    if(!file)
       return false;
 
-   this->writeBasis(file, rowNames, colNames);
+   this->writeBasis(file, rowNames, colNames, cpxFormat);
    return true;
 }
 
